@@ -331,6 +331,102 @@ fn eval_tnt(ctx: &Ctx, case: &TntCase) -> Verdict {
     Ok(Pass::new().nontrivial(case.shape.len() >= 2 && p > 0).label(format!("precision={p:02}")))
 }
 
+// ---------------------------------------------------------------------------------------------
+// `create` as producer
+
+#[derive(Clone, Debug, Serialize, Deserialize)]
+pub struct CreateCase {
+    pub cs: crate::gen::callset::CallSet,
+    pub map: crate::gen::callset::MapSpec,
+    pub project: Option<Vec<usize>>,
+    pub consumer: Consumer,
+    pub link: Link,
+}
+
+fn create_strategy() -> impl Strategy<Value = CreateCase> {
+    use crate::gen::callset::{callset_strategy, force_record_classes, make_selected_diploid, map_draw_strategy, resolve_map, GenParams};
+    let params = GenParams {
+        max_records: 20,
+        max_samples: 8,
+        odd_ploidy: false,
+        ..GenParams::default()
+    };
+    (
+        callset_strategy(params),
+        map_draw_strategy(8),
+        crate::props::c02::target_draw_strategy(),
+        prop::bool::weighted(0.4),
+        prop_oneof![Just(Consumer::View), Just(Consumer::Fold), Just(Consumer::StatSum)],
+        prop_oneof![Just(Link::File), Just(Link::HarnessPipe), Just(Link::ShellPipe)],
+    )
+        .prop_map(|(mut cs, draw, td, project, consumer, link)| {
+            let n = cs.samples.len();
+            let map = resolve_map(&draw, n);
+            let selected: Vec<bool> = map.assignment(n).iter().map(|a| a.is_some()).collect();
+            force_record_classes(&mut cs, &selected);
+            make_selected_diploid(&mut cs, &selected);
+            let project = if project { Some(crate::props::c02::resolve_targets(&cs, &map, &td)) } else { None };
+            CreateCase { cs, map, project, consumer, link }
+        })
+}
+
+fn eval_create(ctx: &Ctx, case: &CreateCase) -> Verdict {
+    use crate::props::common::{create_argv, Container, CreateOpts, Projection};
+    let dir = ctx.worker_dir(crate::engine::worker_id());
+    std::fs::write(dir.join("c07.vcf"), crate::props::common::render(&case.cs, &Container::Vcf).0).expect("write");
+    let opts = CreateOpts {
+        map: Some(crate::gen::callset::MapSpec { as_file: false, ..case.map.clone() }),
+        project: case.project.clone().map(|m| Projection { m, individuals: false }),
+        precision: Some(9),
+        ..Default::default()
+    };
+    let prod_args = create_argv(&case.cs, &opts, Some("c07.vcf"), "unused.samples");
+    let produced_run = cli::sfs(ctx, &prod_args, Input::Null, &dir);
+    ensure!(produced_run.ok(), "`sfs {}` failed: {}", prod_args.join(" "), produced_run.describe());
+    let produced_t = cli::expect_spectrum(&produced_run, "create")?;
+    let produced = Spec::new(produced_t.shape.clone(), produced_t.values.clone());
+    let cons_args: Vec<String> = match case.consumer {
+        Consumer::View => vec!["view".into(), "--precision".into(), "12".into()],
+        Consumer::Fold => vec!["fold".into(), "--precision".into(), "12".into(), "--fill".into(), "minus-one".into()],
+        Consumer::StatSum => vec!["stat".into(), "-s".into(), "sum".into(), "--precision".into(), "9".into()],
+    };
+    let final_run = match case.link {
+        Link::File => {
+            std::fs::write(dir.join("created.sfs"), &produced_run.stdout).expect("write");
+            let mut a = cons_args.clone();
+            a.push("created.sfs".into());
+            cli::sfs(ctx, &a, Input::Null, &dir)
+        }
+        Link::HarnessPipe => cli::sfs(ctx, &cons_args, Input::Pipe(&produced_run.stdout), &dir),
+        Link::ShellPipe => {
+            let bin = ctx.sfs_bin.to_string_lossy().into_owned();
+            let quoted: Vec<String> = prod_args.iter().map(|a| format!("'{}'", a.replace('\'', "'\\''"))).collect();
+            let script = format!("set -o pipefail; \"{bin}\" {} 2>/dev/null | \"{bin}\" {}", quoted.join(" "), cons_args.join(" "));
+            cli::run_bin(ctx, std::path::Path::new("/bin/bash"), &["-c", &script], Input::Null, &dir, &[])
+        }
+    };
+    let what = format!("create -> {:?} via {:?} (`sfs {}`)", case.consumer, case.link, prod_args.join(" "));
+    ensure!(final_run.ok(), "{what}: the consumer did not accept what `create` wrote: {}", final_run.describe());
+    let tol = |w: f64| 1e-9 * (1.0 + w.abs());
+    match case.consumer {
+        Consumer::View => {
+            let got = cli::expect_spectrum(&final_run, &what)?;
+            ensure!(got.shape == produced.shape && got.values.iter().zip(&produced.values).all(|(g, w)| (g - w).abs() <= tol(*w)), "{what}: consumer read {:?} {:?}, create wrote {:?} {:?}", got.shape, got.values, produced.shape, produced.values);
+        }
+        Consumer::Fold => {
+            let got = cli::expect_spectrum(&final_run, &what)?;
+            let want = produced.fold(-1.0);
+            ensure!(got.shape == want.shape && got.values.iter().zip(&want.values).all(|(g, w)| (g - w).abs() <= tol(*w)), "{what}: folded values {:?}, expected {:?}", got.values, want.values);
+        }
+        Consumer::StatSum => {
+            let text = final_run.stdout_str();
+            let got: f64 = text.trim().parse().map_err(|_| Failure::new(format!("{what}: stat output {text:?}")))?;
+            ensure!((got - produced.sum()).abs() <= 1e-6 * (1.0 + produced.sum().abs()), "{what}: sum = {got}, create's values sum to {}", produced.sum());
+        }
+    }
+    Ok(Pass::new().nontrivial(produced.dims() >= 2 || case.project.is_some()).label(format!("create->{:?}", case.consumer)).label(format!("{:?}", case.link)).label(if case.project.is_some() { "projected" } else { "counts" }))
+}
+
 pub fn check(ctx: &Ctx) -> Check {
     let parts: Vec<Box<dyn Part>> = vec![
         Box::new(RandomPart {
@@ -346,6 +442,13 @@ pub fn check(ctx: &Ctx) -> Check {
             cases: ctx.tier.pick(800, 8000),
             strategy: Box::new(|| pipe_strategy().boxed()),
             eval: Box::new(eval_pipe),
+        }),
+        Box::new(RandomPart {
+            name: "create-as-producer",
+            rule: "`sfs create` (with and without projection) as producer for view / fold / stat -s sum through a file, an OS pipe fed by the harness and a shell pipe: accepted, and the consumer's numbers agree with what create printed",
+            cases: ctx.tier.pick(400, 4000),
+            strategy: Box::new(|| create_strategy().boxed()),
+            eval: Box::new(eval_create),
         }),
         Box::new(RandomPart {
             name: "text-npy-text",
